@@ -12,6 +12,9 @@
 //   <Kind>:<field>   Kind ∈ Load, Store, CAS, Swap, Add, Lock, RLock  ; field = last
 //   selector name of the operand (e.g. `atomic.StorePointer(&prev.next, …)` → Store:next,
 //   `s.v.CompareAndSwap(a,b)` → CAS:v, `m.mu.Lock()` → Lock:mu).
+//   sync.Cond fields: `x.cond.Wait()` → vsched.CondWait(x.cond,"cond") with the two sites
+//   Wait:cond (enqueue + unlock) and Wake:cond (signalled + relock); `x.cond.Signal()` →
+//   Signal:cond; `x.cond.Broadcast()` → Broadcast:cond.
 package main
 
 import (
@@ -44,7 +47,8 @@ func src(n ast.Node) string {
 var (
 	atomicFields = map[string]bool{} // field / var names of atomic types in the package
 	mutexFields  = map[string]string{}
-	// field name -> "Mutex" | "RWMutex" | "*Mutex" | "*RWMutex"
+	// field name -> "Mutex" | "RWMutex" | "*Mutex" | "*RWMutex" | "ambiguous"
+	condFields = map[string]string{} // field name -> "Cond" | "*Cond"
 )
 
 func collectFields(dir string) {
@@ -84,17 +88,34 @@ func classify(name, t string) {
 		atomicFields[name] = true
 	case tt == "sync.Mutex":
 		if strings.HasPrefix(t, "*") {
-			mutexFields[name] = "*Mutex"
+			setMutex(name, "*Mutex")
 		} else {
-			mutexFields[name] = "Mutex"
+			setMutex(name, "Mutex")
 		}
 	case tt == "sync.RWMutex":
 		if strings.HasPrefix(t, "*") {
-			mutexFields[name] = "*RWMutex"
+			setMutex(name, "*RWMutex")
 		} else {
-			mutexFields[name] = "RWMutex"
+			setMutex(name, "RWMutex")
+		}
+	case tt == "sync.Cond":
+		if strings.HasPrefix(t, "*") {
+			condFields[name] = "*Cond"
+		} else {
+			condFields[name] = "Cond"
 		}
 	}
+}
+
+// setMutex records the kind of mutex field `name`. The classification is by field NAME, so when two
+// structs of the package declare the same name with different mutex kinds the name is "ambiguous"
+// and its Lock()/RLock() is rewritten to the kind-agnostic vsched.LockAny / RLockAny (same labels).
+func setMutex(name, kind string) {
+	if old, ok := mutexFields[name]; ok && old != kind {
+		mutexFields[name] = "ambiguous"
+		return
+	}
+	mutexFields[name] = kind
 }
 
 func lastName(e ast.Expr) string {
@@ -229,7 +250,14 @@ func lockRewrite(s ast.Stmt) (ast.Stmt, string) {
 		arg = &ast.UnaryExpr{Op: token.AND, X: sel.X}
 	}
 	fn := "Lock"
-	if strings.HasSuffix(kind, "RWMutex") {
+	if kind == "ambiguous" {
+		arg = &ast.UnaryExpr{Op: token.AND, X: sel.X}
+		if m == "RLock" {
+			fn = "RLockAny"
+		} else {
+			fn = "LockAny"
+		}
+	} else if strings.HasSuffix(kind, "RWMutex") {
 		if m == "RLock" {
 			fn = "RLock"
 		} else {
@@ -237,6 +265,12 @@ func lockRewrite(s ast.Stmt) (ast.Stmt, string) {
 		}
 	}
 	label := m + ":" + recv
+	if (fn == "LockAny" || fn == "RLockAny") && curRecv != "" {
+		return &ast.ExprStmt{X: &ast.CallExpr{
+			Fun:  &ast.SelectorExpr{X: ast.NewIdent("vsched"), Sel: ast.NewIdent(fn + "On")},
+			Args: []ast.Expr{ast.NewIdent(curRecv), arg, &ast.BasicLit{Kind: token.STRING, Value: fmt.Sprintf("%q", label)}},
+		}}, label
+	}
 	if fn == "Lock" && curRecv != "" {
 		return &ast.ExprStmt{X: &ast.CallExpr{
 			Fun:  &ast.SelectorExpr{X: ast.NewIdent("vsched"), Sel: ast.NewIdent("LockOn")},
@@ -247,6 +281,51 @@ func lockRewrite(s ast.Stmt) (ast.Stmt, string) {
 		Fun:  &ast.SelectorExpr{X: ast.NewIdent("vsched"), Sel: ast.NewIdent(fn)},
 		Args: []ast.Expr{arg, &ast.BasicLit{Kind: token.STRING, Value: fmt.Sprintf("%q", label)}},
 	}}, label
+}
+
+// condRewrite turns `x.cond.Wait()/Signal()/Broadcast()` on a sync.Cond field into the cooperative
+// vsched.CondWait/CondSignal/CondBroadcast(x.cond, "cond") (…On(recv, …) inside pointer-receiver
+// methods, like PointOn); returns nil if s is not such a call.
+func condRewrite(s ast.Stmt) (ast.Stmt, []string) {
+	es, ok := s.(*ast.ExprStmt)
+	if !ok {
+		return nil, nil
+	}
+	call, ok := es.X.(*ast.CallExpr)
+	if !ok || len(call.Args) != 0 {
+		return nil, nil
+	}
+	sel, ok := call.Fun.(*ast.SelectorExpr)
+	if !ok {
+		return nil, nil
+	}
+	m := sel.Sel.Name
+	if m != "Wait" && m != "Signal" && m != "Broadcast" {
+		return nil, nil
+	}
+	recv := lastName(sel.X)
+	kind, ok := condFields[recv]
+	if !ok {
+		return nil, nil
+	}
+	var arg ast.Expr = sel.X
+	if !strings.HasPrefix(kind, "*") {
+		arg = &ast.UnaryExpr{Op: token.AND, X: sel.X}
+	}
+	labels := []string{m + ":" + recv}
+	if m == "Wait" {
+		labels = append(labels, "Wake:"+recv)
+	}
+	fn := "Cond" + m
+	args := []ast.Expr{arg, &ast.BasicLit{Kind: token.STRING, Value: fmt.Sprintf("%q", recv)}}
+	if curRecv != "" {
+		fn += "On"
+		args = append([]ast.Expr{ast.NewIdent(curRecv)}, args...)
+	}
+	return &ast.ExprStmt{X: &ast.CallExpr{
+		Fun:  &ast.SelectorExpr{X: ast.NewIdent("vsched"), Sel: ast.NewIdent(fn)},
+		Args: args,
+	}}, labels
 }
 
 type siteLog struct {
@@ -359,6 +438,11 @@ func rewriteBlock(list []ast.Stmt) []ast.Stmt {
 		}
 		if ns, label := lockRewrite(s); ns != nil {
 			curSites.Sites = append(curSites.Sites, label)
+			out = append(out, ns)
+			continue
+		}
+		if ns, labels := condRewrite(s); ns != nil {
+			curSites.Sites = append(curSites.Sites, labels...)
 			out = append(out, ns)
 			continue
 		}
